@@ -95,8 +95,12 @@ func (g *pipeGen) patchDoc(rng *Rng, o *pipeObj, withTarget bool) map[string]int
 			} else {
 				md["annotations"] = nil
 			}
-		case r < 34:
+		case r < 32:
 			md["labels"] = nil
+		case r < 34:
+			// one label deleted with null, one numeric value (finding PIPE/patch-spelling: with a target the copy of
+			// the patch is rewritten through map[string]string)
+			md["labels"] = map[string]interface{}{rng.Pick(pipeLabelKeys): nil, "n": rng.Intn(3)}
 		case r < 50:
 			pipeMergeInto(doc, map[string]interface{}{"spec": map[string]interface{}{
 				"extra": map[string]interface{}{rng.Pick([]string{"v", "w", "z"}): pipeAdv(rng)}}})
